@@ -15,7 +15,7 @@ def run_driver(chk, test, result_file, env, timeout=1500, race=True):
             raise vlib.MachineryError("%s: the harness itself panicked:\n%s" % (test, t["out"][-3000:]))
         return wd, dict(scenarios=0, distinct=0, events=0, samples=[], violations=[v]), t
     if not os.path.exists(resf):
-        raise vlib.MachineryError("%s produced no result:\n%s" % (test, t["out"][-3000:]))
+        raise vlib.driver_failed("%s produced no result" % test, t["out"])
     res = json.load(open(resf))
     if t["rc"] != 0:
         # the test binary failed although a (partial) result was written: a data race report or a crash
